@@ -105,13 +105,28 @@ def gen_program(seed: int) -> Dict[str, Any]:
     # a shape
     shape_names: List[str] = []
     if rs.chance(0.4):
-        k = rs.pick(["cylinder", "ring", "hemisphere", "hemisphere_copy", "cylinder_hemisphere", "frustum", "elbow", "semicylinder"])
+        k = rs.pick(["cylinder", "ring", "hemisphere", "hemisphere_copy", "cylinder_hemisphere", "frustum", "elbow", "semicylinder", "stack", "tjoint", "ljoint"])
         o = [0.0, 30.0, 0.0]
         if k == "cylinder":
             ops.append({"op": "shape", "name": "s0", "kind": "cylinder", "args": {"p1": o, "p2": [0, 30, rs.uniform(1, 2)], "r": [rs.uniform(0.5, 1), 30, 0]}})
             shape_names = ["s0"]
         elif k == "frustum":
             ops.append({"op": "shape", "name": "s0", "kind": "frustum", "args": {"p1": o, "p2": [0, 30, 1.5], "r1": [1, 30, 0], "r2": rs.uniform(0.3, 0.8)}})
+            shape_names = ["s0"]
+        elif k == "stack":
+            n1, n2, rep = rs.randint(1, 2), rs.randint(1, 2), rs.randint(1, 3)
+            ops.append({"op": "shape", "name": "s0", "kind": "stack", "args": {"p1": [0, 30, 0], "p2": [rs.uniform(1, 2), 30 + rs.uniform(1, 2), 0], "n1": n1, "n2": n2,
+                                                                                 "amount": round(rs.uniform(0.5, 1.5), 3), "repeats": rep}})
+            nops = n1 * n2 * rep
+            for j in range(nops):
+                for a in range(3):
+                    ops.append({"op": "sub_chop", "target": "s0", "index": j, "axis": a, "args": {"count": 2}})
+                if rs.chance(0.3):
+                    ops.append({"op": "sub_patch", "target": "s0", "index": j, "side": rs.pick(list(hexref.SIDES)), "name": rs.pick(PATCHES)})
+            entities.append("s0")
+            shape_names = []
+        elif k in ("tjoint", "ljoint"):
+            ops.append({"op": "shape", "name": "s0", "kind": k, "args": {"start": [0, 30, 0], "center": [2.0, 30, 0], "r": [0, 30, rs.uniform(0.3, 0.6)]}})
             shape_names = ["s0"]
         elif k == "elbow":
             ops.append({"op": "shape", "name": "s0", "kind": "elbow", "args": {"c": o, "r1": [0.5, 30, 0], "n1": [0, 0, 1], "angle": round(rs.uniform(0.5, 1.5), 3),
@@ -142,9 +157,9 @@ def gen_program(seed: int) -> Dict[str, Any]:
                 ops.append({"op": "shape_chop", "target": sn, "which": which, "args": {"count": 3}})
             if rs.chance(0.6):
                 ops.append({"op": "shape_patch", "target": sn, "which": "outer", "name": rs.pick(PATCHES)})
-            if rs.chance(0.5):
+            if rs.chance(0.5) and k not in ("tjoint", "ljoint"):
                 ops.append({"op": "shape_patch", "target": sn, "which": "start", "name": rs.pick(PATCHES)})
-            if rs.chance(0.3):
+            if rs.chance(0.3) and k not in ("tjoint", "ljoint"):
                 ops.append({"op": "zone", "target": sn, "name": "shapezone"})
         entities += shape_names
     for lab in sorted(labels_used):
